@@ -36,7 +36,7 @@ type BoxError = Box<dyn std::error::Error + Send + Sync + 'static>;
 
 const SVCS: &[&str] = &["client", "clientnp", "pool", "nopool", "connector", "connector"];
 const HOSTS: &[&str] = &["example.com", "www.example.com", "localhost", "127.0.0.1", "10.1.2.3", "[::1]", "[2001:db8::7]", "x", "exa$mple.com", "a..b",
-    "other.test", "EXAMPLE.com", "xn--nxasmq6b.example.com", "1.2.3", "my_host"];
+    "other.test", "EXAMPLE.com", "xn--nxasmq6b.example.com", "1.2.3", "my_host", "[fe80::1%25eth0]", "[1:2]"];
 const SCHEMES: &[&str] = &["http", "https", "ws", "wss", "http", "https", "foo", "Wss", "h2c"];
 const METHODS: &[&str] = &["GET", "POST", "PUT", "DELETE", "HEAD", "OPTIONS", "PATCH", "CONNECT", "CONNECT", "TRACE", "PURGE", "GET", "GET"];
 const PATHS: &[&str] = &["-", "/", "/a", "/a/b/c", "/a%20b", "/~user/x;y=1", "//double", "*"];
